@@ -35,6 +35,32 @@ theorem ratio_range (p n : ℚ) (hp : 0 ≤ p) (hn : 0 ≤ n) :
 theorem quot_value (n d κn κd : ℚ) (sc : Scale) (g : List ℚ) (alt : Option ℚ) :
     (VExp.quot n d κn κd sc g alt).value = if d == 0 || g.any (· == 0) then alt.getD 0 else n / d := rfl
 
+/-- the code's `.clamp(lo, hi)` keeps a value of the range as it is … -/
+theorem qclamp_of_mem {x lo hi : ℚ} (h1 : lo ≤ x) (h2 : x ≤ hi) : qclamp x lo hi = x := by
+  unfold qclamp
+  rw [if_neg (not_lt.mpr h1), if_neg (not_lt.mpr h2)]
+
+/-- … and puts every other value on the nearer end: the result is in the range whatever the operand is -/
+theorem qclamp_range (x : ℚ) {lo hi : ℚ} (h : lo ≤ hi) : lo ≤ qclamp x lo hi ∧ qclamp x lo hi ≤ hi := by
+  unfold qclamp
+  split
+  · exact ⟨le_refl _, h⟩
+  · split
+    · exact ⟨h, le_refl _⟩
+    · rename_i a b; exact ⟨not_lt.mp a, not_lt.mp b⟩
+
+theorem cquot_value (n d κn κd : ℚ) (sc : Scale) (g : List ℚ) (alt : Option ℚ) (lo hi : ℚ) :
+    (VExp.cquot n d κn κd sc g alt lo hi).value = if d == 0 || g.any (· == 0) then alt.getD 0 else qclamp (n / d) lo hi := rfl
+
+/-- a clamped quotient is in its range for ALL operands (rounding residue of either sign included), provided the value
+    returned by the guard is -/
+theorem cquot_range (n d κn κd : ℚ) (sc : Scale) (g : List ℚ) (a lo hi : ℚ) (h : lo ≤ hi) (ha : lo ≤ a ∧ a ≤ hi) :
+    lo ≤ (VExp.cquot n d κn κd sc g (some a) lo hi).value ∧ (VExp.cquot n d κn κd sc g (some a) lo hi).value ≤ hi := by
+  rw [cquot_value]
+  split
+  · simpa using ha
+  · exact qclamp_range _ h
+
 /-- `(p−n)/(p+n)` with the `0` guard (CMO) stays in [−1,1] for non-negative sums -/
 theorem diff_ratio_range (p n : ℚ) (hp : 0 ≤ p) (hn : 0 ≤ n) :
     -1 ≤ (if p + n = 0 then 0 else (p - n) / (p + n)) ∧ (if p + n = 0 then 0 else (p - n) / (p + n)) ≤ 1 := by
